@@ -172,6 +172,16 @@ def expand(fn, e, depth=3, keep=()):
     node ids of replaced sub-trees are those of the initialiser)."""
     defs = local_defs(fn)
 
+    def stable(init):
+        """the initialiser reads no local or parameter that the function assigns elsewhere, so its
+        value at the definition is its value at every later use"""
+        for y in walk(init):
+            if y.get("k") == "ref" and y.get("dk") in ("local", "param"):
+                n = len(defs.get(y["decl"], []))
+                if n > 1 or (n == 1 and y.get("dk") == "param"):
+                    return False
+        return True
+
     def go(x, d):
         if isinstance(x, list):
             return [go(y, d) for y in x]
@@ -179,7 +189,7 @@ def expand(fn, e, depth=3, keep=()):
             return x
         if x.get("k") == "ref" and x.get("dk") == "local" and d > 0 and x.get("decl") not in keep:
             ds = defs.get(x["decl"], [])
-            if len(ds) == 1:
+            if len(ds) == 1 and stable(ds[0]):
                 return go(ds[0], d - 1)
         if x.get("k") == "call" and (x.get("callee") or {}).get("nm") == "operator()" and "obj" in x and not x.get("args") and d > 0:
             # call of a parameterless local lambda whose body is a single return: inline the returned expression
